@@ -36,8 +36,8 @@ StructClauses ==
                         IN I \subseteq X /\ \A x \in X : Orbit(S, SG, x) \cap I # {} ]
 SymmClauses ==
    LET S == Sites  SG == SpaceGroupOf(Rec.lat, S)
-       (* inputs on which the per-orbital centre treatment cannot be exact (SymOrbits!MixedCentreSites) are judged by one clause *)
-       mixedClass == MixedCentreSites(S, SG) # {} /\ \E k \in 1..Len(Rec.shells) : Rec.shells[k] \in EgBasisShells
+       (* inputs on which the per-orbital centre treatment cannot be exact (SymOrbits!MixedCentreSitesFor) are judged by one clause *)
+       mixedClass == \E k \in 1..Len(Rec.shells) : MixedCentreSitesFor(Rec.lat, S, SG, Rec.shells[k]) # {}
        covariant == Rec.b_berry <= LimitBerry /\ Rec.b_centres <= Limit /\ Rec.b_idem <= Limit
    IN
    [ structure_ok   |-> DistinctSites(S) /\ PrimitiveCell(SG),
